@@ -12,7 +12,7 @@
 //!
 //! Depth-2/3 types are produced lazily per inner type (`derived`), so the space is never materialised.
 
-use cqlref::value::{Native, Type};
+use crate::refvalue::{Native, Type};
 
 pub fn nat(n: Native) -> Type {
     Type::Native(n)
